@@ -87,7 +87,7 @@ pub fn determinism(name: &str, wasm: &[u8], out: &mut Vec<Json>) {
 /// C14: configuration switches.
 pub fn config(name: &str, wasm: &[u8], out: &mut Vec<Json>) {
     // DWARF: debug sections are carried over exactly when generate_dwarf is on, whatever the other switches say
-    if let Ok(a0) = amod::decode(wasm) { if !a0.code.is_empty() && a0.code.len() < 40 { if let Some(input) = crate::c10::synthesize(wasm, &a0, crate::c10::DCfg { version: 4, one_seq: false, file0: false }) {
+    if let Ok(a0) = amod::decode(wasm) { if !a0.code.is_empty() && a0.code.len() < 40 { if let Some(input) = crate::c10::synthesize(wasm, &a0, crate::c10::DCfg { version: 4, one_seq: false, file0: false, pair_seq: false }) {
         for (gd, pct, names) in [(false, false, true), (false, true, true), (true, false, false), (true, true, true), (false, true, false)] {
             let r = catch(|| { let mut c = ModuleConfig::new(); c.generate_dwarf(gd).preserve_code_transform(pct).generate_name_section(names).generate_producers_section(false); let mut m = c.parse(&input).ok()?; amod::decode(&m.emit_wasm()).ok() }).flatten();
             if let Some(b) = r { let has = b.customs.iter().any(|c| c.0.starts_with(".debug")); if has != gd { out.push(v("dwarf-switch-ignored", "C14", format!("{}: generate_dwarf({}) preserve_code_transform({}) generate_name_section({}): the output {} .debug sections", name, gd, pct, names, if has { "has" } else { "has no" }), &input, format!("{:?}", b.sections), String::new())); } } } } } }
@@ -101,6 +101,20 @@ pub fn config(name: &str, wasm: &[u8], out: &mut Vec<Json>) {
         if content(&full, "name") != content(&no_names, "name") { out.push(v("name-switch-wrong", "C14", format!("{}: disabling name generation changes something besides the name section", name), wasm, String::new(), String::new())); }
         if content(&full, "producers") != content(&no_prod, "producers") { out.push(v("producers-switch-wrong", "C14", format!("{}: disabling producers generation changes something besides the producers section", name), wasm, String::new(), String::new())); }
     }
+    // the switches are independent of each other and of the order in which they are set: whatever the other setters say, and in
+    // whichever order they are called, a disabled section is absent
+    for mask in 0u32..16 { for order in 0..2 {
+        let (names, prod, synth, stable) = (mask & 1 != 0, mask & 2 != 0, mask & 4 != 0, mask & 8 != 0);
+        let r = catch(|| { let mut c = ModuleConfig::new();
+            let mut setters: Vec<Box<dyn Fn(&mut ModuleConfig)>> = vec![Box::new(move |c| { c.generate_name_section(names); }), Box::new(move |c| { c.generate_producers_section(prod); }), Box::new(move |c| { c.generate_synthetic_names_for_anonymous_items(synth); }), Box::new(move |c| { c.only_stable_features(stable); })];
+            if order == 1 { setters.reverse(); } for f in &setters { f(&mut c); }
+            let mut m = c.parse(wasm).ok()?; amod::decode(&m.emit_wasm()).ok() }).flatten();
+        if let Some(b) = r {
+            let how = format!("generate_name_section({}) generate_producers_section({}) generate_synthetic_names_for_anonymous_items({}) only_stable_features({}) set in {} order", names, prod, synth, stable, if order == 0 { "this" } else { "the reverse" });
+            if !names && b.sections.iter().any(|s| s == "custom:name") { out.push(v("name-switch-wrong", "C14", format!("{}: {}: the output has a name section", name, how), wasm, format!("{:?}", b.sections), String::new())); }
+            if !prod && b.sections.iter().any(|s| s == "custom:producers") { out.push(v("producers-switch-wrong", "C14", format!("{}: {}: the output has a producers section", name, how), wasm, format!("{:?}", b.sections), String::new())); }
+            if prod && !b.sections.iter().any(|s| s == "custom:producers") { out.push(v("producers-switch-wrong", "C14", format!("{}: {}: the output has no producers section", name, how), wasm, format!("{:?}", b.sections), String::new())); }
+        } } }
     // processed-by exactly once however often round-tripped; other fields preserved in order
     let prod_of = |bytes: &[u8]| -> Option<Vec<(String, Vec<(String, String)>)>> { let a = amod::decode(bytes).ok()?; let c = a.customs.iter().find(|c| c.0 == "producers")?;
         let r = wasmparser::ProducersSectionReader::new(wasmparser::BinaryReader::new(&c.1, 0, WasmFeatures::all())).ok()?; let mut fs = vec![];
